@@ -311,6 +311,11 @@ func (it *indexedMessageIterator) loadChunk(chunkIndex *ChunkIndex) error {
 	default:
 		return fmt.Errorf("unsupported compression %s", parsedChunk.Compression)
 	}
+	if uint64(len(chunkSlot.buf)) != bufSize {
+		// the record walk below trusts bufSize; a shorter buffer would make it read
+		// stale bytes of a chunk that used this slot before
+		return fmt.Errorf("chunk decompressed to %d bytes, chunk record declares %d", len(chunkSlot.buf), bufSize)
+	}
 	// produce message indexes for the newly decompressed chunk data.
 	var maxLogTime uint64
 	// Always assume we need to sort newly added message indexes unless there are no outstanding
